@@ -147,7 +147,7 @@ theorem wp_expandOne (cx : PCtx) (action : Bool) (str : Bytes) {Q : Bytes → Pa
     (hQ : ∀ v ms, Inv n B { s with macros := ms } → Q v { s with macros := ms }) :
     wp (expandOne cx action str) Q E F s := by
   unfold wp expandOne
-  cases expandStr cx.home action s.macros str with
+  cases expandStr cx.pathMax cx.home action s.macros str with
   | none => exact hE _ hs.2
   | some r => exact hQ r.1 r.2 hs
 
@@ -156,7 +156,7 @@ theorem wp_expandAll (cx : PCtx) (action : Bool) (strs : List Bytes) {Q : List B
     (hQ : ∀ v ms, Inv n B { s with macros := ms } → Q v { s with macros := ms }) :
     wp (expandAll cx action strs) Q E F s := by
   unfold wp expandAll
-  cases expandStrs cx.home action s.macros strs with
+  cases expandStrs cx.pathMax cx.home action s.macros strs with
   | none => exact hE _ hs.2
   | some r => exact hQ r.1 r.2 hs
 
